@@ -16,7 +16,9 @@ RULE = ("values: (i) exhaustive enumeration of all JSON trees with <= 2 nodes (q
         "is stored through every mutating entry point (constructor data=, item and slice assignment, setdefault, "
         "update as mapping/pairs/kwargs, reset, append, extend, insert, +=, nested-position variants, reset repeated "
         "after an outside rewrite; for the buffered classes also update / reset / item assignment over existing "
-        "content inside obj.buffered and buffer_backend(), judged after the context is left) of each of "
+        "content inside obj.buffered and buffer_backend(), judged after the context is left; update / reset over a "
+        "*lookalike* of the value - ==-equal scalar of another type, another falsy value, string vs list of its "
+        "characters, dict vs list of its keys, empty container of the other kind) of each of "
         "the 18 classes, then read back through a *fresh* object on the same resource and, independently, from "
         "the resource itself; both must be strictly equal (same JSON type at every leaf) to the expected plain "
         "content. distinct = (class, entry point, value) triple; non-trivial = every triple.")
@@ -89,6 +91,45 @@ DICT_ENTRIES = ["ctor", "setitem", "setdefault", "update_mapping", "update_pairs
                 "nested_setitem", "nested_append", "reset_over", "update_over", "reset_after_outside"]
 LIST_ENTRIES = ["ctor", "setitem", "slice", "append", "extend", "insert", "iadd", "reset", "nested_setitem",
                 "nested_append", "reset_over", "reset_after_outside"]
+# the value is stored over a *lookalike*: another JSON value that a sloppy comparison equates with it (==-equal
+# scalars of another type, the other falsy values, a string vs the list of its characters, a dict vs the list of
+# its keys, an empty container of the other kind) - through the in-place merge of update() / reset()
+LOOKALIKE_ENTRIES = ["update_over_lookalike#0", "update_over_lookalike#1", "update_over_lookalike#2",
+                     "reset_over_lookalike#0", "reset_over_lookalike#1", "reset_over_lookalike#2",
+                     "reset_over_lookalike#3"]
+FALSY = [None, False, 0, 0.0, "", [], {}]
+
+
+class Skip(Exception):
+    pass
+
+
+def lookalikes(value):
+    out = []
+    if isinstance(value, bool):
+        out += [int(value), float(value)]
+    elif isinstance(value, int) and abs(value) < 2**53:
+        out += [float(value)] + ([bool(value)] if value in (0, 1) else [])
+    elif isinstance(value, float) and value == int(value) and abs(value) < 2**53:
+        out += [int(value)] + ([bool(value)] if value in (0.0, 1.0) else [])
+    elif isinstance(value, str):
+        out.append(list(value))
+    elif isinstance(value, list):
+        if all(isinstance(x, str) and len(x) == 1 for x in value):
+            out.append("".join(value))
+        if not value:
+            out.append({})
+    elif isinstance(value, dict):
+        out.append(list(value))
+    if not value and value is not None or value is None:
+        out += [f for f in FALSY if not (type(f) is type(value) and f == value)]
+    uniq = []
+    for o in out:
+        if not any(type(o) is type(u) and o == u for u in uniq) and not (type(o) is type(value) and o == value):
+            uniq.append(o)
+    return uniq
+
+
 # buffered classes only: the value is stored inside a buffered context (per-object / backend-wide) over existing
 # content; the round trip is judged after the context has been left
 BUFFERED_ENTRIES = ["update_over@obj", "update_over@backend", "reset_over@obj", "setitem_over@backend",
@@ -142,6 +183,26 @@ def store(info, res, entry, value):
     v = copy.deepcopy(value)
     if "@" in entry:
         return store_buffered(info, res, entry, value)
+    if "#" in entry:
+        what, i = entry.split("#")
+        alts = lookalikes(value)
+        if int(i) >= len(alts):
+            raise Skip()
+        prior = copy.deepcopy(alts[int(i)])
+        obj = res.new_handle()
+        if info.kind == "dict":
+            obj["v"] = prior
+            obj["w"] = {"n": copy.deepcopy(prior)}
+            if what == "update_over_lookalike":
+                obj.update({"v": v, "w": {"n": copy.deepcopy(v)}})
+            else:
+                obj.reset({"v": v, "w": {"n": copy.deepcopy(v)}})
+            return {"v": value, "w": {"n": value}}
+        if what == "update_over_lookalike":
+            raise Skip()
+        obj.reset([prior, [copy.deepcopy(prior)], "tail"])
+        obj.reset([v, [copy.deepcopy(v)], "tail"])
+        return [value, [value], "tail"]
     if entry == "reset_after_outside":
         # a save that is not preceded by a load (root reset), repeated after someone else rewrote the resource
         first = {"v": v} if info.kind == "dict" else [v]
@@ -257,7 +318,8 @@ def run_shard(spec):
     info = catalog.info(spec["cls"])
     out = {"evaluations": 0, "keys": [], "violations": [], "samples": [], "counters": {}, "strata": {}}
     vals = values_for(info, spec["tier"], spec["seed"], spec["piece"], spec["pieces"])
-    entries = (DICT_ENTRIES if info.kind == "dict" else LIST_ENTRIES) + (BUFFERED_ENTRIES if info.buffered else [])
+    entries = (DICT_ENTRIES if info.kind == "dict" else LIST_ENTRIES) + (BUFFERED_ENTRIES if info.buffered else []) \
+        + LOOKALIKE_ENTRIES
     scratch = make_scratch()
     keys = set()
     try:
@@ -272,6 +334,9 @@ def run_shard(spec):
                 case = {"cls": info.name, "entry": entry, "value": _enc(value)}
                 try:
                     want = store(info, res, entry, value)
+                except Skip:
+                    n -= 1
+                    continue
                 except Exception as e:  # noqa: BLE001
                     out["violations"].append({"sig": {**sig, "kind": "rejected", "exc": type(e).__name__},
                                               "detail": f"{info.name} {entry} rejected JSON value {value!r}: "
